@@ -47,6 +47,25 @@ HIER = 'spyne.protocol.dictdoc.hier:HierDictDocument'
 SIMPLE = 'spyne.protocol.dictdoc.simple:SimpleDictDocument'
 
 DECODERS = ('from_unicode', 'from_bytes', 'from_serstr')
+# private helpers of the class under analysis that only wrap a decoder call
+# (filled per class by decoder_wrappers)
+WRAPPERS = set()
+
+
+def decoder_wrappers(cls):
+    out = set()
+    for nm, m in cls.methods.items():
+        if not nm.startswith('_') or nm.startswith('__') or nm in (
+                '_from_dict_value', '_doc_to_object'):
+            continue
+        cs = [c for c in calls_in(m.node) if call_name(c) in DECODERS and
+              (dotted(c.func) or '').startswith('self.')]
+        others = [c for c in calls_in(m.node) if call_name(c) in (
+            'validate_string', 'validate_native', '_doc_to_object',
+            '_from_dict_value')]
+        if cs and not others:
+            out.add(nm)
+    return out
 
 
 # ------------------------------------------------------------------- R1
@@ -58,7 +77,7 @@ def sandwich_sequences(f, inliner=None):
             return ('VS',), True
         if nm == 'validate_native':
             return ('VN',), True
-        if nm in DECODERS and d.startswith('self.'):
+        if (nm in DECODERS or nm in WRAPPERS) and d.startswith('self.'):
             return ('DEC',), True
         if nm in ('from_element', '_doc_to_object', '_from_dict_value',
                   'simple_dict_to_object') and d.startswith('self.'):
@@ -193,6 +212,8 @@ def rule_r1(prog, res):
     f = hier.methods.get('_from_dict_value')
     if f is None:
         raise AnalysisError('HierDictDocument._from_dict_value', 'not found')
+    WRAPPERS.clear()
+    WRAPPERS.update(decoder_wrappers(hier))
     try:
         seqs, nodes = sandwich_sequences(f)
     except PathExplosion as e:
@@ -233,7 +254,8 @@ def rule_r1(prog, res):
             blk = parent(blk)
         if blk is not None and always_exits(blk.body) and \
                 'SOFT_VALIDATION' in unparse(blk.test):
-            decs = [x for x in calls_in(f.node) if call_name(x) in DECODERS
+            decs = [x for x in calls_in(f.node) if (
+                call_name(x) in DECODERS or call_name(x) in WRAPPERS)
                     and x.lineno > c.lineno]
             ok = bool(decs)
     res.ob('R1', f.where, '_from_dict_value: validate_string (soft) precedes '
